@@ -66,7 +66,7 @@ CHECKS = {
  "C17": dict(text="Proof (Coq): the three query commands change nothing but the run-id counter (files, rows, dependency records identical); targets and sources are disjoint; what is in neither list is a special name or a file missing on disk; the ood walk touches no file; redo-ood's dirtiness walk (set in memory) and the builder's (checked_runid in the database, rows judged on copies) return the same verdicts for any list of targets whenever both return, from any state at the start of a run (C17_ood_agrees_with_builder: simulation with a 'settled rows' invariant, Build/OodAgree.v) -- the lower-bound clause on the model. The bounds on redo-ood are also decided against the implementation (paired runs with and without queries, lower bound). " + SERIAL,
     note=TB + " redo-ood's rolled-back write is modelled as discarded.",
     technique="Coq proof of read-only/partition facts and of the agreement of redo-ood's walk with the builder's (simulation) + model/implementation differential check with query commands at every point", ref="5/C17"),
- "C18": dict(text="Proof (Coq): (a) format/parse round trip for every well-formed record (text may contain '@@ ' or '@@REDO:'), soundness of parse, done-record round trip. Tie: exhaustive small strings + random + malformed stream, model vs redo::logs::Meta. Part (b): the follower's partial-line buffer is modelled (LogRec/Assemble.v) and proved to lose/duplicate nothing and to emit the same lines for every fragmentation of the log's bytes (C18_fragmentation_independent); the rest of (b) is decided on the implementation: numbered stderr lines (long, trailing blanks, unterminated, one line delivered in 3-5 fragments) at -j1..4 must appear once, in order, under their own target in the live output and in redo-log -r; catlog is not modelled in Coq (PARTIAL); finding F11 is known.",
+ "C18": dict(text="Proof (Coq): (a) format/parse round trip for every well-formed record (text may contain '@@ ' or '@@REDO:'), soundness of parse, done-record round trip. Tie: exhaustive small strings + random + malformed stream, model vs redo::logs::Meta. Part (b): the follower's partial-line buffer is modelled (LogRec/Assemble.v) and proved to lose/duplicate nothing and to emit the same lines for every fragmentation of the log's bytes (C18_fragmentation_independent); the replay redo-log -r [-u] is modelled (LogRec/Catlog.v: recursion over nested logs, already-set, headers, resumed, done, unterminated last line, exit 24, panics) and proved, for every set of logs and every name resolution, to show each reached target's plain lines exactly once, in order, under a header naming that target (C18b_replay_lines_once, C18b_replay_attributed), and the follower to see the static model's lines (C18b_follow_equals_static); tie: the bytes printed by the real redo-log on the logs of random real builds equal the model's rendering (pid/time normalised), exit status included. The live (follow, lock-aware) output is decided on the implementation: numbered stderr lines (long, trailing blanks, unterminated, one line delivered in 3-5 fragments) at -j1..4 must appear once, in order, under their own target (PARTIAL for the live clause); findings F11, F52, F53 known.",
     note=TB + " f64 timestamps modelled as integers in 1e-4 s; signs/exponents/inf/nan in timestamps are outside the model.",
     technique="Coq proof (round trip) + exhaustive model/implementation differential check", ref="5/C18"),
 }
